@@ -22,6 +22,8 @@ Definition p_wop : parser wop :=
   match tag with
   | 0 => let* len := pN in pret (OWrite len)
   | 1 => pret OFlush
+  | 2 => pret OClose
+  | 3 => let* lens := plist pN in pret (OWriteV lens)
   | _ => pfail
   end.
 
@@ -63,8 +65,8 @@ Definition enc_wstate (s : wstate) : list N :=
 Definition enc_wrec (xr : wres * writer) : list N :=
   let '(x, w) := xr in
   match x with
-  | WPanic => [3; 0; 0; 0; 0; 0]
-  | _ => enc_wres x ++ enc_wstate (w_state w) ++ [w_sent w]
+  | WPanic => [3; 0; 0; 0; 0; 0; 0; 0]
+  | _ => enc_wres x ++ enc_wstate (w_state w) ++ [w_sent w; b2n (w_lp w); b2n (w_cclosed w)]
   end.
 
 Definition enc_rres (x : rres) : list N :=
@@ -77,15 +79,21 @@ Definition enc_rstate (r : reader) : list N :=
   | ReadFrameLen => [1; 0; 0; 0]
   | ProcNone => [2; 0; 0; 0]
   | ProcPend a b c => [3; a; b; c]
+  | Failed => [4; 0; 0; 0]
   end ++ [r_nread r; r_offset r; enc_opt (r_cfs r)].
 Definition enc_rrec (xr : rres * reader) : list N :=
   let '(x, r) := xr in
   match x with
-  | RPanic => [3; 0; 0; 0; 0; 0; 0; 0; 0; 0; 0]
-  | _ => enc_rres x ++ enc_rstate r ++ [r_wbase r + r_nread r]
+  | RPanic => [3; 0; 0; 0; 0; 0; 0; 0; 0; 0; 0; 0]
+  | _ => enc_rres x ++ enc_rstate r ++ [r_wbase r + r_nread r; b2n (r_lp r)]
   end.
 
 Definition header (c : cfg) : list N := [MSG; TAG; c_mfl c; rbuf_len c; ebuf_len c].
+
+(* frame headers of the bytes that reached the carrier; a trailing 0 marks an incomplete frame *)
+Definition wire_hdrs (w : writer) : list N :=
+  let fr := sent_frames (w_frames w) (w_sent w) in
+  map (fun x => x + TAG) fr ++ (if frames_wire fr =? w_sent w then [] else [0]).
 
 Definition run_case (l : list N) : list N :=
   match decode_case l with
@@ -96,35 +104,41 @@ Definition run_case (l : list N) : list N :=
       1 :: header c ++ enc_list enc_wrec wtr ++ [b2n ok] ++
       (if ok then
          let '(fx, fw, _) := poll_flush c [] w in
-         let plains := w_frames fw in
-         let e := env_of c plains (k_tamper k) in
-         enc_wrec (fx, fw) ++
-         enc_list (fun x => [x + TAG]) plains ++
-         [e_avail e] ++
-         enc_list enc_rrec (run_reader e (expand (k_reads k)) (k_rsc k) (reader_init c))
+         match fx with
+         | WPanic => enc_wrec (fx, fw) ++ [0; 0; 0]
+         | _ =>
+             let plains := sent_frames (w_frames fw) (w_sent fw) in
+             let e := env_of c plains (k_tamper k) in
+             enc_wrec (fx, fw) ++
+             enc_list (fun x => [x]) (wire_hdrs fw) ++
+             [e_avail e] ++
+             enc_list enc_rrec (run_reader e (expand (k_reads k)) (k_rsc k) (reader_init c))
+         end
        else [])
   end.
 
 (* ---- decoding a trace ---- *)
-Definition p_wrec : parser (wres * wstate * N) :=
+Record wrec := mkWQ { wq_res : wres; wq_st : wstate; wq_sent : N; wq_lp : bool; wq_closed : bool }.
+Definition p_wrec : parser wrec :=
   let* tag := pN in let* a := pN in
   let* st := pN in let* off := pN in let* elen := pN in let* sent := pN in
+  let* lp := pBool in let* cl := pBool in
   let x := match tag with 0 => WReady a | 1 => WPending | 2 => WErr a | _ => WPanic end in
-  pret (x, if st =? 0 then WIdle else Writing off elen, sent).
+  pret (mkWQ x (if st =? 0 then WIdle else Writing off elen) sent lp cl).
 
-Record rrec := mkRR { q_res : rres; q_tag : N; q_nread : N; q_offset : N; q_pulled : N }.
+Record rrec := mkRR { q_res : rres; q_tag : N; q_nread : N; q_offset : N; q_pulled : N; q_lp : bool }.
 Definition p_rrec : parser rrec :=
   let* tag := pN in let* a := pN in let* b := pN in
   let* st := pN in let* _ := pN in let* _ := pN in let* _ := pN in
-  let* nread := pN in let* offset := pN in let* _ := pN in let* pulled := pN in
+  let* nread := pN in let* offset := pN in let* _ := pN in let* pulled := pN in let* lp := pBool in
   let x := match tag with 0 => RReady a b | 1 => RPending | 2 => RErr a | _ => RPanic end in
-  pret (mkRR x st nread offset pulled).
+  pret (mkRR x st nread offset pulled lp).
 
 Record trace := mkTrace {
   t_header : list N;
-  t_wrecs : list (wres * wstate * N);
+  t_wrecs : list wrec;
   t_ok : bool;
-  t_rest : option ((wres * wstate * N) * list N * N * list rrec)
+  t_rest : option (wrec * list N * N * list rrec)
 }.
 
 Definition p_trace : parser trace :=
@@ -141,26 +155,38 @@ Definition p_trace : parser trace :=
 
 (* ---- the oracle: what the property text demands of an observed run ---- *)
 
-(* writer calls: no error, no panic; a write of len bytes accepts between 1 and len bytes or is
-   Pending; the i-th record answers the i-th call *)
-Fixpoint wcalls_ok (ops : list wop) (recs : list (wres * wstate * N)) : bool :=
+Definition faulty_sc (sc : list N) : bool := existsb (fun x => SPECIAL <=? x) sc.
+Definition is_close (o : wop) : bool := match o with OClose => true | _ => false end.
+Definition op_len (o : wop) : N :=
+  match o with OWrite len => len | OWriteV lens => first_nonempty lens | _ => 0 end.
+Definition st_idle (s : wstate) : bool := match s with WIdle => true | _ => false end.
+
+(* writer calls, one record per call: never a panic, never InvalidData; an error only when the
+   carrier was scripted to fail or was closed by the caller; a write of len bytes accepts between
+   1 and len bytes (0 for an empty buffer); poll_flush / poll_close = Ready leave nothing buffered
+   and a completed close has closed the carrier; Pending only after the carrier returned Pending
+   (so a waker is registered) *)
+Fixpoint wcalls_ok (errs : bool) (ops : list wop) (recs : list wrec) : bool :=
   match ops, recs with
   | [], [] => true
-  | OWrite len :: ot, (x, _, _) :: rt =>
-      match x with
-      | WReady n => (n <=? len) && ((len =? 0) || (1 <=? n))
-      | WPending => 1 <=? len
-      | _ => false
-      end && wcalls_ok ot rt
-  | OFlush :: ot, (x, _, _) :: rt =>
-      match x with WReady _ | WPending => true | _ => false end && wcalls_ok ot rt
+  | o :: ot, q :: rt =>
+      match wq_res q with
+      | WReady n =>
+          if is_write o then (n <=? op_len o) && ((op_len o =? 0) || (1 <=? n))
+          else st_idle (wq_st q) && (negb (is_close o) || wq_closed q)
+      | WPending => wq_lp q && (negb (is_write o) || (1 <=? op_len o))
+      | WErr e => errs && negb (e =? E_INVALID)
+      | WPanic => false
+      end && wcalls_ok errs ot rt
   | _, _ => false
   end.
 
-Fixpoint waccepted (recs : list (wres * wstate * N)) (ops : list wop) : N :=
+(* plaintext accepted while the carrier was still open *)
+Fixpoint waccepted (ops : list wop) (recs : list wrec) : N :=
   match ops, recs with
-  | OWrite _ :: ot, (WReady n, _, _) :: rt => n + waccepted rt ot
-  | _ :: ot, _ :: rt => waccepted rt ot
+  | o :: ot, q :: rt =>
+      if wq_closed q then 0
+      else (if is_write o then match wq_res q with WReady n => n | _ => 0 end else 0) + waccepted ot rt
   | _, _ => 0
   end.
 
@@ -185,12 +211,16 @@ Fixpoint clean_prefix (items : list item) (plains : list N) (k avail : N) : N :=
 Definition is_clean (t : tamper) : bool :=
   match t with TNone => true | _ => false end.
 
-(* reader calls: never a panic, never an internal-state error; every delivered chunk is the next
-   chunk of the stream (no loss, duplication, reordering or alteration), fits the caller's buffer
-   and is non-empty for a non-empty buffer; nothing beyond the clean prefix of a tampered wire is
-   ever delivered; on an untampered wire the only error is the carrier's EOF, and when that EOF
-   comes after the whole wire was pulled, everything has been delivered *)
-Fixpoint rcalls_ok (clean : bool) (limit total avail : N) (bufs : list N) (recs : list rrec) (delivered : N) : bool :=
+(* reader calls (the socket is polled on after errors): never a panic, never an internal-state
+   error; every delivered chunk is the next chunk of the stream (no loss, duplication, reordering
+   or alteration), fits the caller's buffer and is non-empty for a non-empty buffer; nothing beyond
+   the clean prefix of a tampered wire is ever delivered; once InvalidData was reported every later
+   call reports InvalidData (fail-stop); on an untampered wire InvalidData never occurs; other
+   errors are the carrier's (EOF / zero-length read, or a scripted I/O error); when EOF comes
+   after the whole untampered wire was pulled, everything has been delivered; Pending only after the
+   carrier returned Pending *)
+Fixpoint rcalls_ok (clean rerrs : bool) (limit total avail : N) (bufs : list N) (recs : list rrec)
+                   (delivered : N) (failed : bool) : bool :=
   match recs with
   | [] => true
   | q :: rt =>
@@ -199,14 +229,19 @@ Fixpoint rcalls_ok (clean : bool) (limit total avail : N) (bufs : list N) (recs 
       | b :: bt =>
           match q_res q with
           | RReady n pos =>
-              (pos =? delivered) && (n <=? b) && ((b =? 0) || (1 <=? n)) &&
+              negb failed && (pos =? delivered) && (n <=? b) && ((b =? 0) || (1 <=? n)) &&
               (delivered + n <=? limit) &&
-              rcalls_ok clean limit total avail bt rt (delivered + n)
-          | RPending => rcalls_ok clean limit total avail bt rt delivered
+              rcalls_ok clean rerrs limit total avail bt rt (delivered + n) failed
+          | RPending =>
+              negb failed && q_lp q && rcalls_ok clean rerrs limit total avail bt rt delivered failed
           | RErr e =>
-              match rt with [] => true | _ => false end &&
-              ((e =? E_EOF) || ((e =? E_INVALID) && negb clean)) &&
-              (negb clean || negb ((e =? E_EOF) && (q_pulled q =? avail)) || (delivered =? total))
+              if e =? E_INVALID then
+                negb clean && rcalls_ok clean rerrs limit total avail bt rt delivered true
+              else
+                negb failed &&
+                ((e =? E_EOF) || (rerrs && (6 <=? e) && (e <=? 9))) &&
+                (negb clean || negb ((e =? E_EOF) && (q_pulled q =? avail)) || (delivered =? total)) &&
+                rcalls_ok clean rerrs limit total avail bt rt delivered failed
           | RPanic => false
           end
       end
@@ -223,28 +258,35 @@ Definition prop_ok (case trace : list N) : bool :=
         | Some t =>
             nlist_eqb (t_header t) (header c) &&
             t_ok t &&
-            wcalls_ok (k_wops k) (t_wrecs t) &&
+            wcalls_ok (faulty_sc (k_wsc k) || existsb is_close (k_wops k)) (k_wops k) (t_wrecs t) &&
             match t_rest t with
             | None => false
-            | Some ((fx, fst_, fsent), hdrs, avail, rr) =>
+            | Some (fq, hdrs, avail, rr) =>
                 let plains := map (fun h => h - TAG) hdrs in
                 let total := sum plains in
                 let items := apply_tamper (k_tamper k) (honest plains) in
-                (* flush completeness and framing *)
-                match fx with WReady _ => true | _ => false end &&
-                match fst_ with WIdle => true | _ => false end &&
-                (fsent =? frames_wire plains) &&
+                let was_closed := existsb wq_closed (t_wrecs t) in
+                (* the final flush (carrier accepting everything): completes unless the carrier was
+                   closed by the caller; what reached the carrier is whole frames, and their
+                   plaintext is exactly what was accepted while the carrier was open *)
+                match wq_res fq with
+                | WReady _ => st_idle (wq_st fq)
+                | WErr e => was_closed && (e =? E_BROKENPIPE)
+                | _ => false
+                end &&
+                (wq_sent fq =? frames_wire plains) &&
                 forallb (hdr_ok (c_mfl c)) hdrs &&
-                (total =? waccepted (t_wrecs t) (k_wops k)) &&
+                (total =? waccepted (k_wops k) (t_wrecs t)) &&
                 (avail =? tamper_avail (k_tamper k) (honest plains)) &&
-                rcalls_ok (is_clean (k_tamper k)) (clean_prefix items plains 0 avail) total avail
-                          (expand (k_reads k)) rr 0
+                rcalls_ok (is_clean (k_tamper k)) (faulty_sc (k_rsc k))
+                          (clean_prefix items plains 0 avail) total avail
+                          (expand (k_reads k)) rr 0 false
             end
         end
       else true    (* a zero read-ahead factor or write-buffer size is outside the property *)
   | _, _ => false
   end.
 
-(* No known-finding classes for C02: the defect found (MAX_FRAME_LEN one byte too large, see
-   KNOWN_FINDINGS.txt `fixed:`) is repaired in the code; every failing case is a violation. *)
+(* No known-finding classes for C02: the defects found (see KNOWN_FINDINGS.txt `fixed:`) are
+   repaired in the code; every failing case is a violation. *)
 Definition known_class (case trace : list N) : N := 0.
